@@ -299,7 +299,7 @@ impl<'a> LeafNode<'a> {
         let value_data_start = value_start + varint_size;
 
         ensure!(
-            value_data_start + value_len as usize <= PAGE_SIZE,
+            value_len <= (PAGE_SIZE - value_data_start) as u64,
             "value extends beyond page boundary"
         );
 
@@ -466,7 +466,7 @@ impl<'a> LeafNodeMut<'a> {
         let value_data_start = value_start + varint_size;
 
         ensure!(
-            value_data_start + value_len as usize <= PAGE_SIZE,
+            value_len <= (PAGE_SIZE - value_data_start) as u64,
             "value extends beyond page boundary"
         );
 
